@@ -11,7 +11,35 @@ import (
 	"fmt"
 	"os"
 	"sort"
+	"time"
 )
+
+// Now is the symbolic clock: in the engine an arbitrary non-decreasing instant (time.Now itself is modelled the
+// same way); natively the model's value.
+func Now() time.Time { return TimeOf(I64("now")) }
+
+// ClockReading returns the i-th instant the code under test obtained from the clock on this path (negative i counts
+// from the end). Engine only: natively the real clock is used and harnesses that need this are replayed in the engine.
+func ClockReading(i int) int64 { return 0 }
+
+// ClockReadings is the number of clock readings made so far.
+func ClockReadings() int { return 0 }
+
+// TimeOf builds the Time whose instant is ns nanoseconds since the Unix epoch; 0 stands for the zero Time.
+func TimeOf(ns int64) time.Time {
+	if ns == 0 {
+		return time.Time{}
+	}
+	return time.Unix(0, ns).UTC()
+}
+
+// NanoOf is the inverse of TimeOf.
+func NanoOf(t time.Time) int64 {
+	if t.IsZero() {
+		return 0
+	}
+	return t.UnixNano()
+}
 
 type ufEntry struct {
 	Name string
